@@ -7,6 +7,7 @@
 
 #include <etl/_3rd_party/gcem/gcem.hpp>
 #include <etl/_concepts/integral.hpp>
+#include <etl/_limits/numeric_limits.hpp>
 #include <etl/_type_traits/is_constant_evaluated.hpp>
 #include <etl/_type_traits/is_same.hpp>
 
@@ -17,7 +18,20 @@ namespace detail {
 template <typename T>
 [[nodiscard]] constexpr auto sqrt(T arg) noexcept -> T
 {
-    if (not is_constant_evaluated()) {
+    if (is_constant_evaluated()) {
+        if (arg != arg or arg == numeric_limits<T>::infinity()) {
+            return arg;
+        }
+        if (arg < T(0)) {
+            return numeric_limits<T>::quiet_NaN();
+        }
+    }
+#if defined(TETL_COMPILER_GCC)
+    constexpr auto folds = true; // GCC folds the sqrt builtins (correctly rounded) in constant evaluation for finite arguments >= 0
+#else
+    constexpr auto folds = false;
+#endif
+    if (folds or not is_constant_evaluated()) {
         if constexpr (is_same_v<T, float>) {
 #if __has_builtin(__builtin_sqrtf)
             return __builtin_sqrtf(arg);
